@@ -31,6 +31,7 @@ import (
 	"bytes"
 	"encoding/xml"
 	"fmt"
+	"sort"
 	"strings"
 
 	"verif/internal/gen/zipw"
@@ -203,18 +204,31 @@ type Level struct {
 	Start int    // default 1
 }
 
-// Num is a numbering instance; it is written as w:abstractNum (same id) + w:num.
+// Num is a numbering instance (w:num). Without Opts.Abstracts it is written as w:abstractNum
+// (same id, Levels) + w:num. With Opts.Abstracts it only writes the w:num, which refers to the
+// abstract definition AbstractID (the indirection need not be the identity).
 type Num struct {
-	ID     int
+	ID            int
+	Levels        []Level     // legacy form: the definition itself (ignored when Opts.Abstracts != nil)
+	AbstractID    int         // with Opts.Abstracts: w:abstractNumId of the definition this num uses
+	StartOverride map[int]int // ilvl -> w:lvlOverride/w:startOverride value
+}
+
+// Abstract is one w:abstractNum definition.
+type Abstract struct {
+	ID     int // w:abstractNumId (0 is valid)
 	Levels []Level
 }
 
 // Opts selects the optional parts.
 type Opts struct {
-	Styles []Style       // nil: no word/styles.xml
-	Nums   []Num         // nil: no word/numbering.xml
-	Title  string        // "" : no docProps/core.xml
-	Extra  []zipw.Member // appended verbatim (decoys etc.)
+	Styles []Style // nil: no word/styles.xml
+	Nums   []Num   // nil: no word/numbering.xml; written as w:num in slice order
+	// Abstracts, when non-nil, are the w:abstractNum definitions in declaration order; Nums then
+	// refer to them through Num.AbstractID (declaration order, ids and indirection are the caller's).
+	Abstracts []Abstract
+	Title     string        // "" : no docProps/core.xml
+	Extra     []zipw.Member // appended verbatim (decoys etc.)
 }
 
 // DefaultStyles returns Normal, Heading1..Heading6, Title and ListParagraph (as Word writes them:
@@ -485,11 +499,17 @@ func stylesXML(st []Style) string {
 	return b.String()
 }
 
-func numberingXML(nums []Num) string {
+func numberingXML(nums []Num, abs []Abstract) string {
 	var b strings.Builder
 	b.WriteString(hdr)
 	fmt.Fprintf(&b, `<w:numbering xmlns:w="%s">`, nsW)
-	for _, n := range nums {
+	explicit := abs != nil
+	if !explicit {
+		for _, n := range nums {
+			abs = append(abs, Abstract{ID: n.ID, Levels: n.Levels})
+		}
+	}
+	for _, n := range abs {
 		fmt.Fprintf(&b, `<w:abstractNum w:abstractNumId="%d"><w:multiLevelType w:val="hybridMultilevel"/>`, n.ID)
 		for i, l := range n.Levels {
 			start := l.Start
@@ -510,7 +530,20 @@ func numberingXML(nums []Num) string {
 		b.WriteString(`</w:abstractNum>`)
 	}
 	for _, n := range nums {
-		fmt.Fprintf(&b, `<w:num w:numId="%d"><w:abstractNumId w:val="%d"/></w:num>`, n.ID, n.ID)
+		aid := n.ID
+		if explicit {
+			aid = n.AbstractID
+		}
+		fmt.Fprintf(&b, `<w:num w:numId="%d"><w:abstractNumId w:val="%d"/>`, n.ID, aid)
+		var lv []int
+		for k := range n.StartOverride {
+			lv = append(lv, k)
+		}
+		sort.Ints(lv)
+		for _, k := range lv {
+			fmt.Fprintf(&b, `<w:lvlOverride w:ilvl="%d"><w:startOverride w:val="%d"/></w:lvlOverride>`, k, n.StartOverride[k])
+		}
+		b.WriteString(`</w:num>`)
 	}
 	b.WriteString(`</w:numbering>`)
 	return b.String()
@@ -592,7 +625,7 @@ func Members(doc Doc, o Opts) []zipw.Member {
 	}
 	if o.Nums != nil {
 		ovr("/word/numbering.xml", wml+"numbering+xml")
-		ms = append(ms, zipw.M("word/numbering.xml", numberingXML(o.Nums)))
+		ms = append(ms, zipw.M("word/numbering.xml", numberingXML(o.Nums, o.Abstracts)))
 	}
 	if doc.Header != nil {
 		ovr("/word/header1.xml", wml+"header+xml")
